@@ -3,6 +3,7 @@ from ..callgraph import explore, site_guarded, call_sites
 from ..expr import show, find
 from .common import entry, variant_env, where
 from .hub_common import receive_handlers, subtree, Roles
+from .msgs import is_zero_const
 
 
 def fee_sites(prog, world, sem, roles):
@@ -20,10 +21,16 @@ def fee_sites(prog, world, sem, roles):
             if len(e.args) != 2:
                 continue
             fee = world.ident(e.args[1], expand_ws=False)
+            # the fee may be written `amount - min(..)` inside the threshold test, or `amount - fee` with fee = min(..) below the
+            # threshold and zero otherwise: the non-zero alternative is what counts, and its own site is what must be guarded
+            alts = [a for a in (fee.args if fee.op == "phi" else (fee,)) if not is_zero_const(world.ident(a, expand_ws=False))]
+            if len(alts) == 1:
+                fee = world.ident(alts[0], expand_ws=False)
             if fee.op == "call" and fee.info == "std::cmp::Ord::min":
                 has_fee = find(world.norm(fee, 0, False), lambda y: roles.role(y) == ("params", "peg_recovery_fee"))
                 if has_fee:
-                    out.append((name, vis, bb, world.ident(e.args[0], expand_ws=False), fee, e, vs))
+                    gbb = fee.site[1] if fee.site is not None and fee.site[0] == vis.body.path else bb
+                    out.append((name, vis, bb, world.ident(e.args[0], expand_ws=False), fee, e, vs, gbb))
     return out
 
 
@@ -42,14 +49,14 @@ def run(prog, world, sem, rep):
     expected = ["Bond", "Receive/Convert/bsei", "Receive/Convert/stsei", "Receive/Unbond/bsei"]
     if names != expected:
         rep.ob("C05.a", "fee sites", False, "fee-charging sites found %s, expected %s (a new or missing fee path must be classified)" % (names, expected))
-    for (name, vis, bb, nofee, fee, sub, vs) in sites:
+    for (name, vis, bb, nofee, fee, sub, vs, gbb) in sites:
         # ---- C05.a
         def fp(f, resolve):
             if f[0] == "cmp" and f[1] == "Lt":
                 return roles.role(resolve(f[2])) == ("state", "bsei_exchange_rate") and roles.role(resolve(f[3])) == ("params", "er_threshold")
             return False
-        g, d = site_guarded(sem, vis, bb, fp)
-        rep.ob("C05.a", "%s: fee only below the threshold" % name, g, d, where(vis.body, bb), key="C05.a | %s" % name)
+        g, d = site_guarded(sem, vis, gbb, fp)
+        rep.ob("C05.a", "%s: fee only below the threshold" % name, g, d, where(vis.body, gbb), key="C05.a | %s" % name)
         # ---- C05.b
         a, b = [world.ident(x, expand_ws=False) for x in fee.args]
         cap = None
@@ -158,6 +165,7 @@ def find_uses_of_result(world, vis, nf, subn):
                 continue
             n = world.norm(vis.resolve(v), 0, False)
             alts = n.args if n.op == "phi" else (n,)
-            if len(alts) == 2 and any(a == nf for a in alts) and any(a == subn or (a.op == "proj" and a.args[0] == subn) for a in alts):
+            is_sub = [a == subn or (a.op == "proj" and a.args[0] == subn) for a in alts]
+            if any(is_sub) and all(x or a == nf for x, a in zip(is_sub, alts)):
                 return True
     return False
